@@ -1232,3 +1232,161 @@ fn verif_c19_sh_schedules() {
     }
     rec.finish();
 }
+
+// ---------------------------------------------------------------------------------------------
+// resharding by PRF inside the hybrid protocol (incl. shards that start without rows)
+// ---------------------------------------------------------------------------------------------
+//
+// `compute_prf_and_reshard` is the user of resharding whose selection is the revealed pseudonym. The pseudonyms are
+// public and equal on all helpers, so the sequence of pseudonyms a (helper, shard) ends up with can be compared directly:
+// identical on the three helpers, and identical between two runs of the same world in which one shard starts late.
+
+#[cfg(not(feature = "shuttle"))]
+async fn prf_reshard_world<const S: usize>(seed: u64, counts: Vec<usize>, late_shard: Option<usize>, malicious: bool) -> Vec<Vec<Result<Vec<u64>, String>>> {
+    use crate::protocol::hybrid::oprf::compute_prf_and_reshard;
+    use super::wl::{self, Rep};
+    let mut cfg = TestWorldConfig::default();
+    cfg.seed = seed;
+    cfg.timeout = None;
+    let world = TestWorld::<WithShards<S>>::with_shards(&cfg);
+    let mut r = VRng::new(seed ^ 0xc19a, 1);
+    let mut per: [Vec<Vec<wl::Row>>; 3] = std::array::from_fn(|_| vec![Vec::new(); S]);
+    let mut mk = 1u64;
+    for (s, n) in counts.iter().enumerate() {
+        for k in 0..*n {
+            // mostly unique match keys, a few pairs
+            let rep = if k % 5 == 4 { Rep::Conv { mk: mk - 1, v: (k % 7) as u8 } } else { mk += 1; Rep::Imp { mk, bk: (k % 50) as u8 } };
+            let [a, b, c] = wl::share_report(&rep, &mut r);
+            per[0][s].push(a);
+            per[1][s].push(b);
+            per[2][s].push(c);
+        }
+    }
+    let mut futs: Vec<Pin<Box<dyn Future<Output = (usize, usize, Result<Vec<u64>, String>)> + Send + '_>>> = Vec::new();
+    macro_rules! spawn_all {
+        ($ctxs:expr) => {
+            for (h, (hctxs, hrows)) in $ctxs.into_iter().zip(per).enumerate() {
+                for (s, (ctx, rows)) in hctxs.into_iter().zip(hrows).enumerate() {
+                    futs.push(Box::pin(async move {
+                        if late_shard == Some(s) {
+                            tokio::time::sleep(std::time::Duration::from_secs(2)).await;
+                        }
+                        let out = match catch_fut(compute_prf_and_reshard(ctx, rows)).await {
+                            Ok(Ok(v)) => Ok(v.iter().map(|rep| rep.match_key).collect()),
+                            Ok(Err(e)) => Err(format!("{e:?}").chars().take(120).collect()),
+                            Err(p) => Err(format!("panic: {p}").chars().take(120).collect()),
+                        };
+                        (h, s, out)
+                    }));
+                }
+            }
+        };
+    }
+    if malicious {
+        spawn_all!(world.malicious_contexts());
+    } else {
+        spawn_all!(world.contexts());
+    }
+    let mut outs: Vec<Vec<Result<Vec<u64>, String>>> = vec![vec![Err("no result".into()); S]; 3];
+    for (h, s, o) in join_all(futs).await {
+        outs[h][s] = o;
+    }
+    outs
+}
+
+#[cfg(not(feature = "shuttle"))]
+#[test]
+fn verif_c19_prf_reshard_order() {
+    let env = vlib::env();
+    let mut rec = Recorder::new("C19", "verif_c19_prf_reshard_order");
+    let cases = env.pick(16, 240);
+    let only = replay_case();
+    for idx in 0..cases {
+        if !env.mine(idx) || only.is_some_and(|c| c != idx) {
+            continue;
+        }
+        let mut r = VRng::new(env.seed ^ 0xc19c, idx as u64);
+        let shards = [3usize, 5, 2, 3][idx % 4];
+        // one or two shards start without rows (every second case), the others hold 3..24 rows
+        let mut counts: Vec<usize> = (0..shards).map(|_| 3 + r.below(if env.thorough { 22 } else { 10 }) as usize).collect();
+        let empties = if idx % 2 == 0 { 1 + (idx / 2) % 2 } else { 0 };
+        for e in 0..empties.min(shards - 1) {
+            counts[(idx / 4 + e * 2) % shards] = 0;
+        }
+        let malicious = idx % 3 != 0;
+        let seed = env.seed.wrapping_mul(977) + idx as u64;
+        let late = {
+            let with_rows: Vec<usize> = (0..shards).filter(|s| counts[*s] > 0).collect();
+            *r.choose(&with_rows)
+        };
+        let run = |late_shard: Option<usize>| {
+            let counts = counts.clone();
+            vlib::run_paused(std::time::Duration::from_secs(600), async move {
+                match shards {
+                    2 => prf_reshard_world::<2>(seed, counts, late_shard, malicious).await,
+                    3 => prf_reshard_world::<3>(seed, counts, late_shard, malicious).await,
+                    _ => prf_reshard_world::<5>(seed, counts, late_shard, malicious).await,
+                }
+            })
+        };
+        let witness = json!({"case": idx, "shards": shards, "rows_per_shard": counts, "malicious": malicious, "late_shard": late, "world_seed": seed});
+        let mut layouts: Vec<Vec<Vec<u64>>> = Vec::new(); // per run: per shard sequence (of helper 0, after the cross-helper check)
+        let mut failed = false;
+        for late_shard in [None, Some(late)] {
+            rec.eval();
+            let outs = match run(late_shard) {
+                vlib::Paused::Quiescent => {
+                    rec.violation("PRF evaluation and resharding did not complete", json!({"kind": "prf_reshard_no_completion", "empty_shards": empties > 0}), witness.clone());
+                    failed = true;
+                    break;
+                }
+                vlib::Paused::Done(o) => o,
+            };
+            if let Some((h, s, e)) = outs.iter().enumerate().find_map(|(h, v)| v.iter().enumerate().find_map(|(s, o)| o.as_ref().err().map(|e| (h, s, e.clone())))) {
+                rec.violation("PRF evaluation and resharding failed on an honest run", json!({"kind": "prf_reshard_failed", "empty_shards": empties > 0}),
+                              json!({"w": witness, "helper": h, "shard": s, "error": e}));
+                failed = true;
+                break;
+            }
+            let seqs: Vec<Vec<Vec<u64>>> = outs.into_iter().map(|v| v.into_iter().map(Result::unwrap).collect()).collect();
+            // identical on the three helpers, on the selected shard, nothing lost
+            let total: usize = seqs[0].iter().map(Vec::len).sum();
+            let misplaced = seqs[0].iter().enumerate().any(|(s, v)| v.iter().any(|mk| (*mk % shards as u64) as usize != s));
+            if total != counts.iter().sum::<usize>() || misplaced {
+                rec.violation("reports were lost, duplicated or placed on a shard other than pseudonym mod shard count", json!({"kind": "prf_reshard_placement"}),
+                              json!({"w": witness, "held": seqs[0].iter().map(Vec::len).collect::<Vec<_>>()}));
+                failed = true;
+                break;
+            }
+            if let Some(s) = (0..shards).find(|s| seqs[1][*s] != seqs[0][*s] || seqs[2][*s] != seqs[0][*s]) {
+                rec.violation("after resharding by pseudonym the three helpers hold the reports of a shard in different orders", json!({"kind": "prf_reshard_order_differs_between_helpers", "empty_shards": empties > 0}),
+                              json!({"w": witness, "shard": s, "late_start": late_shard}));
+                failed = true;
+                break;
+            }
+            rec.count("prf_reshard_runs_aligned_across_helpers");
+            layouts.push(seqs.into_iter().next().unwrap());
+        }
+        if failed {
+            continue;
+        }
+        if layouts[0] != layouts[1] {
+            let s = (0..shards).find(|s| layouts[0][*s] != layouts[1][*s]).unwrap();
+            rec.violation(
+                "the order in which a shard holds its reports after resharding by pseudonym depends on timing (one shard started late)",
+                json!({"kind": "prf_reshard_order_depends_on_timing", "receiving_shard_started_empty": counts[s] == 0}),
+                json!({"w": witness, "shard": s}),
+            );
+        } else {
+            rec.count("prf_reshard_order_equal_between_timings");
+            if empties > 0 {
+                rec.count("prf_reshard_cases_with_shards_without_rows");
+            }
+            rec.distinct(&("prf", shards, counts.clone(), malicious, late));
+        }
+        if rec.want_sample() && idx % 7 == 1 {
+            rec.sample(witness);
+        }
+    }
+    rec.finish();
+}
